@@ -168,6 +168,9 @@ impl Prop for C01 {
     fn strategy(&self, tier: Tier) -> BoxedStrategy<HistCase> {
         gen::hist(tier.pick(24, 60), &[0, 0, 1, 2])
     }
+    fn extra_evidence(&self, root: &std::path::Path) -> serde_json::Value {
+        crate::engine::fuzz_stats(root, "graph_history")
+    }
     fn random_cases(&self, tier: Tier) -> u32 {
         tier.pick(200_000, 2_000_000)
     }
